@@ -275,6 +275,9 @@ func (t *Trimmer) traceExtendMethod(fathers []*parser.Service, svc *parser.Servi
 		for _, father := range fathers {
 			// 子 method 写了来自 extends 的某个名字的时候，都间接向上查找，遍历所有子节点的名字尝试匹配
 			funcName := father.Name + "." + function.Name
+			if t.matchGoName {
+				funcName = father.Name + "." + toGoName(function.Name)
+			}
 			for i, method := range t.trimMethods {
 				if ok, _ := method.MatchString(funcName); ok {
 					// same rule as in markService: "S.get" does not select "S.getAll"
